@@ -6,7 +6,7 @@
    functional definition), StandardExamples (6.10.3.5 verbatim), <>Finished under
    weak fairness.  Sensitivity control: with HideFix = FALSE (a function-like
    expansion forgets its own name) TLC must find the non-terminating behaviour.
-2. Generate -> replay: every finished behaviour of the families F1..F15 is one
+2. Generate -> replay: every finished behaviour of the families F1..F17 is one
    input; `chibicc -E` of the tree under test must print exactly the expected
    pp-token spellings (harness tokenizer, validated against Lexer.tla by C19 and
    here on a sample); a per-process timeout decides termination.  Inputs whose
@@ -19,7 +19,9 @@
    (macro name, parameter, #x, l ## r, __LINE__ ...) in whose place it stands (F13);
    only next to an item that VANISHED is a blank optional.  A backslash outside
    literals is a pp-token of its own and is stringized as it is (F14); a # that macro
-   replacement puts first on a line never starts a directive (F15).
+   replacement puts first on a line never starts a directive (F15).  A directive ends with
+   its line (6.10p2; DirLines.tla, F16): a new-line at every token boundary of every kind
+   of directive line, the rest of the would-be directive starting the next line.
 3. Directive layout (tla/pp/Layout.tla): comments and line splices at every token boundary of
    every kind of directive line; TLC checks that translation phases 2-3 give back the plain
    spelling's logical lines, every text is replayed in a process of its own.
@@ -34,8 +36,8 @@ _LOCK = threading.Lock()
 # family -> (number of cases, quick stride, thorough stride); strides are primes that do not divide the radices
 FAMS = {"F1": (140544, 127, 1), "F2": (44376, 53, 1), "F3": (6615, 11, 1), "F4": (12433, 7, 1), "F5": (21, 1, 1), "F6": (26, 1, 1),
         "F7": (36980, 97, 1), "F8": (3200, 3, 1), "F9": (392, 1, 1), "F10": (110, 1, 1), "F11": (216, 1, 1), "F12": (18, 1, 1),
-        "F13": (1020, 1, 1), "F14": (24, 1, 1), "F15": (225, 1, 1)}
-MERGED = ("F5", "F9", "F10", "F11", "F12", "F14", "F15")      # always complete: one TLC run (pseudo-family FS) enumerates them all
+        "F13": (1020, 1, 1), "F14": (24, 1, 1), "F15": (225, 1, 1), "F16": (1495, 1, 1), "F17": (120, 1, 1)}
+MERGED = ("F5", "F9", "F10", "F11", "F12", "F14", "F15", "F16", "F17")      # always complete: one TLC run (pseudo-family FS) enumerates them all
 MERGED_DYN = ("F6", "F13")                                    # likewise (pseudo-family FD), one order of argument pre-expansion (__COUNTER__)
 
 EXTRAS = [   # closed hand-written list: expansion next to directives, shape of the remaining predefined dynamic macros
@@ -107,6 +109,7 @@ def expect_ok(ctx, module, cfg, what, **kw):
 
 
 DYN = ("F6", "F13")         # families with __COUNTER__ / __LINE__ / __FILE__: one process per case
+OWN_TEXT = ("F16",)         # families whose cases are whole texts with directive lines of their own: one process per case
 
 
 def expected(c, res):
@@ -138,6 +141,19 @@ def judge(ctx, chib, gcc, c, res, prop="C09"):
         ctx.report("crash:%s:%s" % (feats, c["fam"]), "%s: chibicc -E failed without a diagnostic (crash or runaway expansion)" % key, case=info)
         return False
     if c["class"] != "ok":
+        if "baddirective" in c["flags"] and res["rc"] == 0 and not re.search(r"\S", res["err"]):
+            # DirLines.tla: an executed directive violates the syntax (no operand on its own line ...): 5.1.1.3
+            # requires a diagnostic.  The compiler accepted the text silently, i.e. it read the directive's
+            # operand from the following line.  (gcc must have diagnosed it, else it is the spec's problem.)
+            g = gcc.run_one(c)
+            if g["rc"] == 0 and not re.search(r"\S", g["err"]):
+                ctx.oracle_disagreements += 1
+                return True
+            info.update(got=res["toks"], rc=res["rc"], text=res["text"] or ppcase.render_case(c)[0])
+            ctx.report("undiagnosed:%s:%s" % (feats, c["fam"]),
+                       "%s: a directive without its operand on its own line is accepted silently (output `%s`)   input: %s" % (
+                           key, " ".join(res["toks"] or []), ppcase.render_case(c)[0].replace("\n", " \\n ")), case=info)
+            return False
         return True
     outs = expected(c, res)
     if res["rc"] == 0 and res["toks"] is not None and matches(c, res["toks"], outs):
@@ -166,10 +182,11 @@ def judge(ctx, chib, gcc, c, res, prop="C09"):
 
 def replay_cases(ctx, chib, gcc, cases, prop="C09"):
     # one process per case: F6 (__COUNTER__ is global) and PS (nothing may precede the sequence under test)
-    ok = [c for c in cases if c["class"] == "ok" and c["fam"] not in DYN + ("PS",)]
-    single = [c for c in cases if c["class"] == "ok" and c["fam"] in DYN + ("PS",)]
-    diag = [c for c in cases if c["class"] == "diag"]
+    ok = [c for c in cases if c["class"] == "ok" and c["fam"] not in DYN + OWN_TEXT + ("PS",)]
+    single = [c for c in cases if c["class"] == "ok" and c["fam"] in DYN + OWN_TEXT + ("PS",)]
+    diag = [c for c in cases if c["class"] == "diag" and c["fam"] not in OWN_TEXT]
     diag = vt.subsample(diag, ctx.seed, 5 if ctx.quick else 1)      # thorough: every one (the quick samples are subsets)
+    diag += [c for c in cases if c["class"] == "diag" and c["fam"] in OWN_TEXT]       # (a diagnostic is REQUIRED there: every one)
     res = chib.run_cases(ok)
     res.update(chib.run_cases(single + diag, single=True))
     n = 0
@@ -292,7 +309,8 @@ def trace_validation(ctx, tree, cases):
     step of the machine (MacroTrace.tla).  Without the hook in the tree there are no events: skipped."""
     d = ctx.tmp("h3")
     texts = []
-    ok = [c for c in cases if c["class"] == "ok" and c["fam"] in ("F2", "F3", "F5", "F7", "F9")]
+    ok = [c for c in cases if c["class"] == "ok" and c["fam"] in ("F2", "F3", "F5", "F7", "F9", "F17")]
+    ok.sort(key=lambda c: c["fam"] != "F17")       # (stable) the family whose hide sets differ most goes first: only 600 cases are traced
     for i in range(0, min(len(ok), 600), 60):
         f = os.path.join(d, "gen%d.c" % i)
         open(f, "w").write("".join(ppcase.render_case(c)[0] for c in ok[i:i + 60]))
@@ -344,6 +362,8 @@ def trace_validation(ctx, tree, cases):
 def tools(ctx, tree):
     chib = ppcase.Runner(ctx, "chibicc", [tree + "/chibicc", "-E"], timeout=5)
     gcc = ppcase.Runner(ctx, "gcc", ["cc", "-E", "-P", "-w"], timeout=20, ucn=True)
+    for r in (chib, gcc):       # the header that the directive texts (Layout.tla, DirLines.tla) include
+        open(os.path.join(r.dir, "lay.h"), "w").write("inc_ok\n")
     return chib, gcc
 
 
@@ -404,7 +424,7 @@ def run(ctx):
         "__LINE__ only in invocations written on one line; __DATE__/__TIME__/__TIMESTAMP__/__BASE_FILE__ are checked for shape only",
         "6.10.3.4p4 situations carry both conforming results (hide set of the name alone / intersected with the closing parenthesis)"]
     return ctx.finish(
-        rule="case = one (definitions, invocation) input of the families F1..F15 of MacroFamilies.tla, run to completion by Macro.tla and replayed through chibicc -E; non-trivial = the machine took at least 2 steps; distinct = distinct (family, index)",
+        rule="case = one (definitions, invocation) input of the families F1..F17 of MacroFamilies.tla, run to completion by Macro.tla and replayed through chibicc -E; non-trivial = the machine took at least 2 steps; distinct = distinct (family, index)",
         exhaustive=not q,
         extra=dict(replayed=total))
 
